@@ -358,6 +358,272 @@ fn body(case: &AbortCase, premade: Option<Unimock>, parked: &mut dyn FnMut(Unimo
     }
 }
 
+// ------------------------------------------------------------------ usability after a caught user panic
+
+pub static ARMED: std::sync::atomic::AtomicBool = std::sync::atomic::AtomicBool::new(false);
+fn armed() -> bool {
+    ARMED.load(Ordering::SeqCst)
+}
+
+pub struct ArmedDebug(pub u8);
+impl std::fmt::Debug for ArmedDebug {
+    fn fmt(&self, f: &mut std::fmt::Formatter<'_>) -> std::fmt::Result {
+        if armed() {
+            panic!("ORIGIN argument Debug")
+        }
+        write!(f, "AD({})", self.0)
+    }
+}
+
+#[derive(Debug, PartialEq)]
+pub struct ArmedClone(pub u8);
+impl Clone for ArmedClone {
+    fn clone(&self) -> Self {
+        if armed() {
+            panic!("ORIGIN return value Clone")
+        }
+        ArmedClone(self.0)
+    }
+}
+
+#[unimock(api=QMock, unmock_with=[real_q0, _, _, _])]
+pub trait Q {
+    fn q0(&self, x: u8) -> u32;
+    fn q_def(&self, x: u8) -> u32 {
+        if armed() {
+            panic!("ORIGIN default body")
+        }
+        1000 + x as u32
+    }
+    fn q_dbg(&self, d: ArmedDebug) -> u32;
+    fn q_clone(&self, x: u8) -> ArmedClone;
+}
+
+pub fn real_q0(_: &impl std::any::Any, x: u8) -> u32 {
+    if armed() {
+        panic!("ORIGIN unmock function")
+    }
+    70 + x as u32
+}
+
+#[derive(Clone, Copy, Debug, PartialEq, Eq, Hash, Serialize, Deserialize)]
+pub enum Via {
+    Original,
+    /// through a clone that is dropped after the panic was caught
+    CloneKept,
+    /// through a clone that is dropped while its thread unwinds
+    CloneDroppedUnwinding,
+    /// through a clone on another thread, which dies of the panic and is joined
+    CloneOnJoinedThread,
+    /// through a shared `&Unimock` (original behind an Arc) on another thread that is joined
+    SharedOnJoinedThread,
+}
+
+pub const VIAS: [Via; 5] = [Via::Original, Via::CloneKept, Via::CloneDroppedUnwinding, Via::CloneOnJoinedThread, Via::SharedOnJoinedThread];
+
+pub const USER_ORIGINS: [Origin; 6] = [Origin::Matcher, Origin::Answer, Origin::UnmockFn, Origin::DefaultBody, Origin::ArgDebug, Origin::ReturnClone];
+
+#[derive(Clone, Copy, Debug, PartialEq, Eq, Hash, Serialize, Deserialize)]
+pub struct UsableCase {
+    pub usable_origin: Origin,
+    pub via: Via,
+    /// how many times the user panic is provoked and caught
+    pub repeats: u8,
+    /// leave one expectation one call short at the end (verification must then fail)
+    pub short: bool,
+}
+
+fn usable_setup(c: &UsableCase) -> impl Clause {
+    let r = c.repeats as usize;
+    let extra = |o: Origin| if c.usable_origin == o { r } else { 0 };
+    let mut dc = unimock::verif::DynClause::new();
+    dc.push(QMock::q0.stub(|each| {
+        each.call(&|m| m.func(|x: &u8, _| *x < 4)).answers(&|_, x| 100 + x as u32).n_times(3);
+        each.call(&|m| m.func(|x: &u8, _| *x == 5))
+            .answers(&|_, _| {
+                if armed() {
+                    panic!("ORIGIN answer")
+                }
+                50
+            })
+            .n_times(1 + extra(Origin::Answer));
+        each.call(&|m| {
+            m.func(|x: &u8, _| {
+                if *x == 6 && armed() {
+                    panic!("ORIGIN matcher")
+                }
+                *x == 6
+            })
+        })
+        .answers(&|_, _| 60)
+        .n_times(1);
+        each.call(&|m| m.func(|x: &u8, _| *x == 7)).applies_unmocked().n_times(1 + extra(Origin::UnmockFn));
+    }));
+    dc.push(QMock::q_clone.each_call(&|m| m.func(|_, _| true)).returns(ArmedClone(1)).n_times(1 + extra(Origin::ReturnClone)));
+    if c.usable_origin == Origin::ArgDebug {
+        // (a mock that is never matched counts as dead: only mention it where it is called)
+        dc.push(QMock::q_dbg.each_call(&|m| m.func(|_, _| false)).answers(&|_, _| 0));
+    }
+    dc
+}
+
+fn usable_trigger(origin: Origin, u: &Unimock) {
+    match origin {
+        Origin::Matcher => {
+            u.q0(6);
+        }
+        Origin::Answer => {
+            u.q0(5);
+        }
+        Origin::UnmockFn => {
+            u.q0(7);
+        }
+        Origin::DefaultBody => {
+            u.q_def(9);
+        }
+        Origin::ArgDebug => {
+            u.q_dbg(ArmedDebug(1));
+        }
+        Origin::ReturnClone => {
+            u.q_clone(1);
+        }
+        other => panic!("HARNESS: {other:?} is not a user-panic origin"),
+    }
+}
+
+/// Worker side. "OK" or "FAIL: ...".
+pub fn execute_usable(c: &UsableCase) -> String {
+    ARMED.store(false, Ordering::SeqCst);
+    let res = catch(|| -> Result<(), String> {
+        let mut original = Some(Unimock::new(usable_setup(c)));
+        let expect = |what: &str, got: Result<u32, String>, want: u32| -> Result<(), String> {
+            match got {
+                Ok(v) if v == want => Ok(()),
+                Ok(v) => Err(format!("{what} returned {v}, expected {want}")),
+                Err(p) => Err(format!("the mock is not usable after the caught panic: {what} panicked: {p:?}")),
+            }
+        };
+        {
+            let u = original.as_ref().unwrap();
+            expect("q0(1) before the panic", catch(|| u.q0(1)), 101)?;
+        }
+        for round in 0..c.repeats {
+            ARMED.store(true, Ordering::SeqCst);
+            let origin = c.usable_origin;
+            let r: Result<(), String> = match c.via {
+                Via::Original => {
+                    let u = original.as_ref().unwrap();
+                    catch(|| usable_trigger(origin, u))
+                }
+                Via::CloneKept => {
+                    let cl = original.as_ref().unwrap().clone();
+                    let r = catch(|| usable_trigger(origin, &cl));
+                    ARMED.store(false, Ordering::SeqCst);
+                    drop(cl);
+                    r
+                }
+                Via::CloneDroppedUnwinding => {
+                    let u = original.as_ref().unwrap();
+                    catch(|| {
+                        let cl = u.clone();
+                        usable_trigger(origin, &cl)
+                    })
+                }
+                Via::CloneOnJoinedThread => {
+                    let cl = original.as_ref().unwrap().clone();
+                    std::thread::spawn(move || usable_trigger(origin, &cl)).join().map_err(payload_to_string)
+                }
+                Via::SharedOnJoinedThread => {
+                    let arc = Arc::new(original.take().unwrap());
+                    let h = arc.clone();
+                    let r = std::thread::spawn(move || usable_trigger(origin, &h)).join().map_err(payload_to_string);
+                    original = Some(Arc::try_unwrap(arc).map_err(|_| "HARNESS: the joined thread kept its handle".to_string())?);
+                    r
+                }
+            };
+            ARMED.store(false, Ordering::SeqCst);
+            match r {
+                Ok(()) => return Err(format!("HARNESS: round {round}: the armed {origin:?} did not panic")),
+                Err(msg) if !msg.contains(marker(origin)) => {
+                    return Err(format!("round {round}: the caught panic is not the user's: {msg:?} (expected it to contain {:?})", marker(origin)))
+                }
+                Err(_) => {}
+            }
+        }
+        // the mock must behave as if the panicking calls had merely been matched (or not, for the matcher)
+        let u = original.as_ref().unwrap();
+        let cl = u.clone();
+        expect("q0(2) after the panic", catch(|| u.q0(2)), 102)?;
+        if !c.short {
+            expect("q0(3) after the panic (through a clone)", catch(|| cl.q0(3)), 103)?;
+        }
+        expect("q0(5) after the panic", catch(|| cl.q0(5)), 50)?;
+        expect("q0(6) after the panic", catch(|| u.q0(6)), 60)?;
+        expect("q0(7) after the panic", catch(|| u.q0(7)), 77)?;
+        expect("q_def(3) after the panic", catch(|| cl.q_def(3)), 1003)?;
+        match catch(|| u.q_clone(1)) {
+            Ok(v) if v == ArmedClone(1) => {}
+            Ok(v) => return Err(format!("q_clone(1) after the panic returned {v:?}")),
+            Err(p) => return Err(format!("the mock is not usable after the caught panic: q_clone(1) panicked: {p:?}")),
+        }
+        drop(cl);
+        let u = original.take().unwrap();
+        let verdict = catch(move || u.verify());
+        if c.usable_origin == Origin::ArgDebug {
+            // whether the mock error whose rendering panicked counts as recorded is not specified
+            return Ok(());
+        }
+        match (verdict, c.short) {
+            (Ok(()), false) => Ok(()),
+            (Err(msg), true) if msg.contains("Q::q0") && msg.contains("3 calls") && msg.contains("2 calls") => Ok(()),
+            (Err(msg), true) => Err(format!("verification fails, but does not report the one pattern that is one call short (exactly 3, matched 2): {msg:?}")),
+            (Ok(()), true) => Err("verification passed although one pattern is one call short".to_string()),
+            (Err(msg), false) => Err(format!("verification does not reflect the calls actually matched (every pattern met its count): {msg:?}")),
+        }
+    });
+    ARMED.store(false, Ordering::SeqCst);
+    match res {
+        Ok(Ok(())) => "OK".to_string(),
+        Ok(Err(e)) if e.starts_with("HARNESS") => format!("FAIL: {e}"),
+        Ok(Err(e)) => format!("FAIL: {e}"),
+        Err(p) => format!("FAIL: a panic escaped: {p}"),
+    }
+}
+
+pub fn usable_table() -> Vec<UsableCase> {
+    let mut v = vec![];
+    for usable_origin in USER_ORIGINS {
+        for via in VIAS {
+            for repeats in [1u8, 2, 3] {
+                for short in [false, true] {
+                    v.push(UsableCase { usable_origin, via, repeats, short });
+                }
+            }
+        }
+    }
+    v
+}
+
+pub fn check_usable(worker: &std::cell::RefCell<Worker>, case: &UsableCase) -> Result<CaseInfo, String> {
+    let json = serde_json::to_string(case).unwrap();
+    match worker.borrow_mut().run(&json) {
+        Reply::Crash(status) => Err(format!("the process aborted ({status}) while a user panic was being caught and the mock used again")),
+        Reply::Line(l) if l == "OK" => Ok(CaseInfo::new(true)
+            .class(match case.usable_origin {
+                Origin::Matcher => "panic-in:matcher",
+                Origin::Answer => "panic-in:answer",
+                Origin::UnmockFn => "panic-in:unmock-fn",
+                Origin::DefaultBody => "panic-in:default-body",
+                Origin::ArgDebug => "panic-in:argument-Debug",
+                _ => "panic-in:return-value-Clone",
+            })
+            .class_if(case.short, "one-call-short-at-the-end")
+            .class_if(matches!(case.via, Via::CloneOnJoinedThread | Via::SharedOnJoinedThread), "panic-killed-a-joined-thread")),
+        Reply::Line(l) if l.contains("HARNESS") => Err(format!("HARNESS: {l}")),
+        Reply::Line(l) => Err(l),
+    }
+}
+
 pub static PANIC_COUNT: AtomicUsize = AtomicUsize::new(0);
 
 /// Worker side: run the case on a spawned thread, report what the thread boundary saw.
@@ -414,13 +680,25 @@ pub fn worker_main() {
     std::panic::set_hook(Box::new(|_| {
         PANIC_COUNT.fetch_add(1, Ordering::SeqCst);
     }));
-    vcore::worker::serve(|line| match serde_json::from_str::<AbortCase>(line) {
+    vcore::worker::serve(|line| {
+        if let Ok(c) = serde_json::from_str::<UsableCase>(line) {
+            return match catch(|| execute_usable(&c)) {
+                Ok(s) => s,
+                Err(p) => format!("FAIL: HARNESS panic in worker: {p}"),
+            };
+        }
+        serve_abort_case(line)
+    });
+}
+
+fn serve_abort_case(line: &str) -> String {
+    match serde_json::from_str::<AbortCase>(line) {
         Ok(c) => match catch(|| execute(&c)) {
             Ok(s) => s,
             Err(p) => format!("FAIL: HARNESS panic in worker: {p}"),
         },
         Err(e) => format!("FAIL: HARNESS bad case {e}"),
-    });
+    }
 }
 
 /// Child-process side (`rt --child-c11 <json>`): the scenario runs on the *main* thread with
@@ -550,6 +828,8 @@ pub fn run(ctx: &Ctx) -> Verdict {
     let mut sub2 = vcore::run_enumerated(ctx, "table-as-process", cells, check_process);
     sub2.exhaustive = stride == 1;
     v.subs.push(sub2);
+    // usability after a caught user panic
+    v.subs.push(vcore::run_enumerated(ctx, "usable-after-caught-panic", usable_table(), |c| check_usable(&worker, c)));
     // random repetition (different interleavings with the keeper thread)
     let n = ctx.tier.pick(10_000, 300_000);
     let tab = table();
@@ -559,6 +839,11 @@ pub fn run(ctx: &Ctx) -> Verdict {
 }
 
 pub fn replay(sub: &str, case: Value) -> Result<(), String> {
+    if sub == "usable-after-caught-panic" {
+        let c: UsableCase = serde_json::from_value(case).map_err(|e| format!("HARNESS: bad case: {e}"))?;
+        let worker = std::cell::RefCell::new(Worker::new("c11"));
+        return check_usable(&worker, &c).map(|_| ());
+    }
     let c: AbortCase = serde_json::from_value(case).map_err(|e| format!("HARNESS: bad case: {e}"))?;
     if sub == "table-as-process" {
         return check_process(&c).map(|_| ());
